@@ -26,6 +26,8 @@ TMalformed == IsEvent("Malformed") /\ ~Ev.crashed /\ ~Ev.hung /\ UNCHANGED dummy
 
 (* the process running the library died (a panic in one of its goroutines) or hung: never a behaviour *)
 TCrash == IsEvent("Crash") /\ FALSE
-TraceNext == TCrash \/ TApi \/ TReads \/ TTncData \/ TExchange \/ TMalformed
+(* the mechanism log of the schedule: judged by AgwpeTrace.tla *)
+TMech == IsEvent("Mech") /\ UNCHANGED dummy /\ Consume
+TraceNext == TMech \/ TCrash \/ TApi \/ TReads \/ TTncData \/ TExchange \/ TMalformed
 TraceSpec == TraceInit /\ [][TraceNext]_<<dummy, tvars>>
 =============================================================================
